@@ -30,8 +30,12 @@ DRIVER = "Ampverif/Drivers/C02.lean"
 KNOWN_CLASS = "identical final-state particles with unequal helicities are summed coherently"
 PROBE = "psi2s_gamma_gamma_jpsi.hel.json"
 QUICK_ORACLE = ["jpsi_gamma_pi0_pi0_omega_f0.hel.json", "lambdac_p_k_pi.hel.json", "jpsi_sigma1750.can.json",
-                "psi2s_gamma_gamma_jpsi.hel.json", "shape_L0_spin1.can", "shape_two_resonances_identical.hel"]
-QUICK_PLAIN = ["jpsi_sigma1750.can.json", "psi2s_gamma_gamma_jpsi.hel.json"]
+                "psi2s_gamma_gamma_jpsi.hel.json", "shape_L0_spin1.can", "shape_two_resonances_identical.hel",
+                "jpsi_sigma1750.hel.json", "jpsi_n1520.hel.json", "chic1_n1440.hel.json"]
+# always in the quick oracle: >= 2-node helicity reactions with unlike eta along the chain, (mapped eta, other eta) = (-1, +1)
+# and (+1, -1) (J/psi -> Sigma~ Sigma+ and J/psi -> N~(1520) p), and eta = (-1, -1) (chi_c1 -> N~(1440) p)
+UNLIKE_ETA = ["jpsi_sigma1750.hel.json", "jpsi_n1520.hel.json", "chic1_n1440.hel.json"]
+QUICK_PLAIN = ["jpsi_sigma1750.can.json", "psi2s_gamma_gamma_jpsi.hel.json", *UNLIKE_ETA]
 QUICK_LINESHAPES = ["jpsi_gamma_pi0_pi0_omega_f0.hel.json", "lambdac_p_k_pi.hel.json", "shape_L0_spin1.can",
                     "shape_two_resonances_identical.hel"]
 
@@ -246,7 +250,6 @@ def numeric_compare(reaction, couplings, flags, rng, n_points, lineshapes=False)
     model, builder = obs["model"], obs["builder"]
     naming = builder.naming
     xvals: dict[str, complex] = {}
-    pre = getattr(builder, "_HelicityAmplitudeBuilder__generate_amplitude_prefactor", None)
     values = {p.name: complex(rng.uniform(-1, 1), rng.uniform(-1, 1)) for p in model.parameter_defaults
               if p.name.startswith(("C_{", "H_{"))}
     for i_v, k_v in enumerate(sorted(values)):  # complex, purely real and purely imaginary values
@@ -255,15 +258,25 @@ def numeric_compare(reaction, couplings, flags, rng, n_points, lineshapes=False)
         elif i_v % 4 == 2:
             values[k_v] = complex(0.0, values[k_v].imag)
 
+    mapping = naming.parity_partner_coefficient_mapping
+
     def coefficient_of(g):
-        if couplings:
-            v = 1.0 + 0j
-            for n in g.topology.nodes:
-                v *= values["H_{" + naming.generate_two_body_decay_suffix(g, n) + "}"]
-        else:
+        """coefficient x parity sign of a chain, WITHOUT the builder's prefactor function: the chain borrows the coefficient
+        of its parity partner at exactly the nodes whose own suffix is mapped to another one; the amplitudes of partner
+        chains differ by the product of eta over exactly those nodes (C03's statement)."""
+        sign = 1
+        v = 1.0 + 0j
+        for n in g.topology.nodes:
+            raw = naming.generate_two_body_decay_suffix(g, n)
+            if mapping.get(raw, raw) != raw:
+                eta = g.interactions[n].parity_prefactor
+                if eta is not None:
+                    sign *= int(eta)
+            if couplings:
+                v *= values["H_{" + raw + "}"]
+        if not couplings:
             v = values["C_{" + naming.generate_sequential_amplitude_suffix(g) + "}"]
-        p = pre(g) if pre is not None else None
-        return v * (1 if p is None else int(p))
+        return v * sign
 
     def lineshape_of(topo, states, interactions, n, pin, c1, c2):
         """independent prediction of which lineshape symbol a node carries, with which variables."""
@@ -406,7 +419,12 @@ class C02Property:
             c03_corpus = {k: v for k, v in corpus.items() if k in c03.PROBES}
             vname, variant = c03.infer_variant(chk, c03_corpus)
             if vname != "sound":
-                chk.note(f"prefactor rule inferred as '{vname}' (C03's business); the C02 model is run under it")
+                chk.broken_correspondence(
+                    "variant", f"the builder implements the unsound parity-prefactor rule '{vname}': the impl skeleton is run "
+                    "under it, but the intensity then differs from the helicity formula wherever partner chains interfere")
+            missing = [n for n in UNLIKE_ETA if n not in corpus]
+            if missing:
+                chk.broken_correspondence("corpus", f"reactions with unlike eta missing from the corpus: {missing}")
             own = infer_own(chk, corpus)
             if not own:
                 chk.broken_correspondence(
